@@ -150,6 +150,11 @@ func realWrite(f *icl.File, e encCfg) (out []byte, err error, panicked any) {
 	if e.EBCDIC {
 		opts = append(opts, icl.WriteEbcdicEncodingOption())
 	}
+	if len(opts) == 2 {
+		if optRotation++; optRotation%2 == 1 {
+			opts[0], opts[1] = opts[1], opts[0]
+		}
+	}
 	err = icl.NewWriter(&buf, opts...).Write(f)
 	return buf.Bytes(), err, nil
 }
@@ -165,8 +170,17 @@ func readerOpts(e encCfg, bufSize int) []icl.ReaderOption {
 	if bufSize > 0 {
 		opts = append(opts, icl.BufferSizeOption(bufSize))
 	}
+	// the options are independent settings: the order they are listed in must not matter, so every call lists
+	// them in the next rotation (deterministic: the n-th call of a run always uses the same order)
+	if n := len(opts); n > 1 {
+		optRotation++
+		k := optRotation % n
+		opts = append(append([]icl.ReaderOption{}, opts[k:]...), opts[:k]...)
+	}
 	return opts
 }
+
+var optRotation int
 
 func realRead(in []byte, e encCfg, bufSize int) (f icl.File, err error, panicked any) {
 	defer func() {
